@@ -4,11 +4,16 @@
   The theorems: marking one block used / free changes the count by exactly one (or not at all when it was
   already in that state); an allocation of nb blocks lowers the count by exactly nb and releasing the same blocks
   restores it (create-then-delete restores the count, at the bitmap level); the count of a fresh volume.
-  NOT proved (MANIFEST): that every operation of the library releases exactly the blocks it owns; checked on
+  At the level of an operation: `adfCreateEntry` (the allocation site shared by file creation, directory creation and
+  rename) takes exactly one block when it succeeds and none when it fails, for every disk content and fault schedule —
+  including the path where the block is already allocated and the write that links the entry is refused
+  (`C05_create_entry_takes_one_or_none`): the free MAP (not only the count) is restored.
+  NOT proved (MANIFEST): that every other operation of the library releases exactly the blocks it owns; checked on
   the explored histories by the independent decoder and the exact free-count model.
 -/
 import AdfProofs.BitmapLemmas
 import AdfProps.C04
+import AdfProofs.NoLeakLemmas
 namespace Adf.C05
 open Adf
 
@@ -107,5 +112,16 @@ theorem C05_range_nodup (last : Nat) : (List.range' 2 (last + 1 - 2)).Nodup ∧ 
 /-- witness on the 40-block table of C04: 36 free blocks; after using 22 the count is 35, after freeing it again 36 -/
 example : freeCount C04.smallTbl 39 = 36 ∧ freeCount (bmSetWord C04.smallTbl 22 false) 39 = 35 ∧
           freeCount (bmSetWord (bmSetWord C04.smallTbl 22 false) 22 true) 39 = 36 := by decide
+
+/-- **`adfCreateEntry` leaks nothing**: with `none` the free map of the volume is unchanged, with `some b` exactly block `b`
+    (free before) became used — for every directory block, name, disk content and fault schedule -/
+theorem C05_create_entry_takes_one_or_none (c : Cfg) (v : Nat) (dir : Blk) (name : Bytes) (s : St)
+    (hwf : TableWF (s.mem.vol v).bitmapTable) :
+    Post AnyFault c (createEntry v dir name) s (fun r s' => FreeMapStep v s.mem s'.mem r.1) :=
+  createEntry_free_map c v dir name s hwf
+
+/-- the hypothesis holds for every table the library builds (pages decoded from sectors, then bits set / cleared) -/
+example (bytes : Bytes) (n : Nat) (f : Bool) : TableWF (bmSetWord [blkOfBytes bytes] n f) :=
+  bmSetWord_wf _ _ _ (by intro p hp; simp only [List.mem_singleton] at hp; subst hp; exact blkOfBytes_wf bytes)
 
 end Adf.C05
